@@ -178,6 +178,12 @@ func (vfs *MemFS) createDir(parent *dirNode, name string, perm fs.FileMode) *dir
 		children: nil,
 	}
 
+	if parent.mode&fs.ModeSetgid != 0 {
+		// A directory created in a set-group-ID directory inherits its group and the set-group-ID bit.
+		child.gid = parent.gid
+		child.mode |= fs.ModeSetgid
+	}
+
 	parent.addChild(name, child)
 
 	return child
@@ -196,6 +202,11 @@ func (vfs *MemFS) createFile(parent *dirNode, name string, perm fs.FileMode) *fi
 		nlink: 1,
 	}
 
+	if parent.mode&fs.ModeSetgid != 0 {
+		// A file created in a set-group-ID directory inherits its group.
+		child.gid = parent.gid
+	}
+
 	parent.addChild(name, child)
 
 	return child
@@ -211,6 +222,11 @@ func (vfs *MemFS) createSymlink(parent *dirNode, name, link string) *symlinkNode
 			gid:   vfs.User().Gid(),
 		},
 		link: link,
+	}
+
+	if parent.mode&fs.ModeSetgid != 0 {
+		// A symbolic link created in a set-group-ID directory inherits its group.
+		child.gid = parent.gid
 	}
 
 	parent.addChild(name, child)
